@@ -382,6 +382,74 @@ func (c *c14Ctx) replayLine(fx func() []*c14Fixture, line string, pool func() *c
 		if len(w) == 3 {
 			c.opSD([]byte(unhx(w[1])), []byte(unhx(w[2])))
 		}
+	case "st":
+		if len(w) == 12 {
+			c.opST(at(1), at(2), at(3) == 1, at(4), at(5), at(6) == 1, at(7), at(8), at(9) == 1, at(10), at(11))
+		}
+	case "as":
+		if len(w) == 4 {
+			c.opAS(w[1] == "1", at(2), strings.Count(w[3], ",")+1)
+		}
+	case "df":
+		if len(w) == 4 {
+			c.opDF(at(1), w[2] == "1", w[3] == "1")
+		}
+	case "tc":
+		if len(w) == 3 {
+			c.opTC(at(1), w[2] == "1")
+		}
+	case "gc":
+		if len(w) == 3 {
+			c.opGC(at(1), at(2))
+		}
+	case "rt":
+		if len(w) == 2 {
+			c.opRT(strings.Trim(w[1], "-"))
+		}
+	case "cf":
+		if len(w) == 2 {
+			c.opCF(at(1))
+		}
+	case "mc":
+		if len(w) == 4 {
+			c.opMC(unhx(w[1]), at(2), at(3))
+		}
+	case "mm":
+		if len(w) == 2 {
+			var rs [][4]int
+			if w[1] != "-" {
+				for _, r := range strings.Split(w[1], ";") {
+					q := strings.Split(r, ",")
+					if len(q) == 4 {
+						var v [4]int
+						for i := range v {
+							v[i], _ = strconv.Atoi(q[i])
+						}
+						rs = append(rs, v)
+					}
+				}
+			}
+			c.opMM(rs)
+		}
+	case "ch":
+		if len(w) == 4 {
+			cs := strings.Split(w[3], ",")
+			n, _ := strconv.ParseUint(cs[0], 10, 32)
+			for _, f := range fx() {
+				if f.name == "gen-enc" {
+					c.opCH(f, uint32(n))
+				}
+			}
+		}
+	case "ag":
+		if len(w) == 14 {
+			il := at(1)
+			if il >= 8 {
+				il = 100
+			}
+			c.opAG(c14Ag{infoLen: il, xmlOK: w[2] == "1", nKE: at(3), blockSize: at(4), hashLen: at(5), keyBits: at(6), spin: at(7),
+				saltOK: w[8] == "1", saltLen: at(9), encOK: w[10] == "1", encLen: at(11), kdSaltOK: w[12] == "1", pkgLen: at(13)})
+		}
 	case "zl":
 		if len(w) >= 4 {
 			for _, f := range fx() {
@@ -591,6 +659,8 @@ func runC14(r *Run, rng *Rng, replay string) {
 	c14Dbg("cs/gv done", t0)
 	c14GenSD(ctx, rng, nSD)
 	c14GenZL(ctx, fx())
+	c14GenSites(ctx, rng, fx(), thorough)
+	c14Dbg("sites done", t0)
 	c14Dbg("sd done", t0)
 	// 3. the mutation space
 	all := c14Enumerate(fx(), thorough)
